@@ -56,13 +56,13 @@ and first, a failed commit stops the client, `Commit` refuses a rolled-back tran
   transaction at any version is served from a commit record of the transaction. -/
 theorem C28_atomic (c : ClientCfg) (hc : c.Good) (t : Txn) (wf : TxnWF t) (s0 : Store) (fr : Fresh t s0)
     (ops : List Op) (hd : ∀ op ∈ ops, op.Distinct t) :
-    (PrimaryCommitted t (run c t (Sys.init s0) ops).store →
-      ∀ m ∈ t.muts, lockBlocks ((run c t (Sys.init s0) ops).store m.key) t.cv = false →
-        get c.perc ((run c t (Sys.init s0) ops).store m.key) t.cv = expected m) ∧
-    (¬ PrimaryCommitted t (run c t (Sys.init s0) ops).store →
-      ∀ m ∈ t.muts, Invisible c.perc t (run c t (Sys.init s0) ops).store m.key) := by
-  have inv := (SInv.run_inv hc wf ops hd (SInv.init (c := c) wf fr)).1
-  generalize (run c t (Sys.init s0) ops) = y at inv ⊢
+    (PrimaryCommitted t (run c t (Sys.init c t s0) ops).store →
+      ∀ m ∈ t.muts, lockBlocks ((run c t (Sys.init c t s0) ops).store m.key) t.cv = false →
+        get c.perc ((run c t (Sys.init c t s0) ops).store m.key) t.cv = expected m) ∧
+    (¬ PrimaryCommitted t (run c t (Sys.init c t s0) ops).store →
+      ∀ m ∈ t.muts, Invisible c.perc t (run c t (Sys.init c t s0) ops).store m.key) := by
+  have inv := (SInv.run_inv hc wf ops hd (SInv.init (c := c) hc wf fr)).1
+  generalize (run c t (Sys.init c t s0) ops) = y at inv ⊢
   constructor
   · intro hP m hm hnb
     have hk := inv.g.k m hm
@@ -87,19 +87,19 @@ expired or missing), no later step — client retry with the same versions, dupl
 any earlier RPC, further resolver activity — makes any key of the transaction visible. -/
 theorem C28_final (c : ClientCfg) (hc : c.Good) (t : Txn) (wf : TxnWF t) (s0 : Store) (fr : Fresh t s0)
     (ops later : List Op) (hd : ∀ op ∈ ops ++ later, op.Distinct t)
-    (hrb : PrimaryRolledBack t (run c t (Sys.init s0) ops).store) :
-    ∀ m ∈ t.muts, Invisible c.perc t (run c t (Sys.init s0) (ops ++ later)).store m.key := by
+    (hrb : PrimaryRolledBack t (run c t (Sys.init c t s0) ops).store) :
+    ∀ m ∈ t.muts, Invisible c.perc t (run c t (Sys.init c t s0) (ops ++ later)).store m.key := by
   have hd1 : ∀ op ∈ ops, op.Distinct t := fun o ho => hd o (List.mem_append_left _ ho)
   have hd2 : ∀ op ∈ later, op.Distinct t := fun o ho => hd o (List.mem_append_right _ ho)
-  have inv1 := (SInv.run_inv hc wf ops hd1 (SInv.init (c := c) wf fr)).1
+  have inv1 := (SInv.run_inv hc wf ops hd1 (SInv.init (c := c) hc wf fr)).1
   have h2 := SInv.run_inv hc wf later hd2 inv1
-  have hrun : run c t (Sys.init s0) (ops ++ later) = run c t (run c t (Sys.init s0) ops) later := by
+  have hrun : run c t (Sys.init c t s0) (ops ++ later) = run c t (run c t (Sys.init c t s0) ops) later := by
     simp [run, List.foldl_append]
-  have hR : HasR t.start ((run c t (Sys.init s0) (ops ++ later)).store t.primary) := by
+  have hR : HasR t.start ((run c t (Sys.init c t s0) (ops ++ later)).store t.primary) := by
     rw [hrun]; exact (h2.2 t.primary wf.primIsKey).r hrb
-  have hnc : ¬ PrimaryCommitted t (run c t (Sys.init s0) (ops ++ later)).store := by
+  have hnc : ¬ PrimaryCommitted t (run c t (Sys.init c t s0) (ops ++ later)).store := by
     intro hC
-    have inv := (SInv.run_inv hc wf (ops ++ later) hd (SInv.init (c := c) wf fr)).1
+    have inv := (SInv.run_inv hc wf (ops ++ later) hd (SInv.init (c := c) hc wf fr)).1
     exact inv.g.not_C_R_prim wf ⟨hC, hR⟩
   exact (C28_atomic c hc t wf s0 fr (ops ++ later) hd).2 hnc
 
@@ -119,14 +119,14 @@ and which of the two is decided by the primary key alone. -/
 theorem C28_readers_any_ts (c : ClientCfg) (hc : c.Good) (t : Txn) (wf : TxnWF t) (s0 : Store) (fr : Fresh t s0)
     (ops : List Op) (hd : ∀ op ∈ ops, op.Distinct t) :
     (∀ m ∈ t.muts, ∀ v, v < t.cv → ∀ w,
-        readVisible c.perc ((run c t (Sys.init s0) ops).store m.key).writes v = some w →
+        readVisible c.perc ((run c t (Sys.init c t s0) ops).store m.key).writes v = some w →
         w.startTs = t.start → w.kind = .rollback) ∧
-    (PrimaryCommitted t (run c t (Sys.init s0) ops).store →
-      ∀ m ∈ t.muts, ∀ v, t.cv ≤ v → lockBlocks ((run c t (Sys.init s0) ops).store m.key) v = false →
-        ∃ w, readVisible c.perc ((run c t (Sys.init s0) ops).store m.key).writes v = some w ∧
+    (PrimaryCommitted t (run c t (Sys.init c t s0) ops).store →
+      ∀ m ∈ t.muts, ∀ v, t.cv ≤ v → lockBlocks ((run c t (Sys.init c t s0) ops).store m.key) v = false →
+        ∃ w, readVisible c.perc ((run c t (Sys.init c t s0) ops).store m.key).writes v = some w ∧
           (w = ⟨t.cv, t.start, m.kind⟩ ∨ t.cv < w.commitTs)) := by
-  have inv := (SInv.run_inv hc wf ops hd (SInv.init (c := c) wf fr)).1
-  generalize (run c t (Sys.init s0) ops) = y at inv ⊢
+  have inv := (SInv.run_inv hc wf ops hd (SInv.init (c := c) hc wf fr)).1
+  generalize (run c t (Sys.init c t s0) ops) = y at inv ⊢
   constructor
   · intro m hm v hv w hr hs
     exact read_lt_invisible c.perc (inv.g.k m hm) hv hr hs
@@ -157,16 +157,16 @@ def wGroupedOps : List Op :=
 back, every lock is resolved, and key 0 is visible at the commit version while keys 1 and 2 are
 not. -/
 theorem C28_fails_asis_grouped (c : ClientCfg) (hc : c.commitOrder = .regionGrouped) :
-    PrimaryRolledBack wGrouped (run c wGrouped (Sys.init Store.empty) wGroupedOps).store ∧
-    get c.perc ((run c wGrouped (Sys.init Store.empty) wGroupedOps).store 0) 12 = .val 100 ∧
-    get c.perc ((run c wGrouped (Sys.init Store.empty) wGroupedOps).store 1) 12 = .notFound ∧
-    get c.perc ((run c wGrouped (Sys.init Store.empty) wGroupedOps).store 2) 12 = .notFound := by
-  obtain ⟨o, b1, ⟨b2, b3⟩⟩ := c
+    PrimaryRolledBack wGrouped (run c wGrouped (Sys.init c wGrouped Store.empty) wGroupedOps).store ∧
+    get c.perc ((run c wGrouped (Sys.init c wGrouped Store.empty) wGroupedOps).store 0) 12 = .val 100 ∧
+    get c.perc ((run c wGrouped (Sys.init c wGrouped Store.empty) wGroupedOps).store 1) 12 = .notFound ∧
+    get c.perc ((run c wGrouped (Sys.init c wGrouped Store.empty) wGroupedOps).store 2) 12 = .notFound := by
+  obtain ⟨o, b1, ⟨b2, b3, b4⟩⟩ := c
   simp only at hc
   subst hc
   refine ⟨⟨⟨10, 10, .rollback⟩, ?_, rfl, rfl⟩, ?_⟩
-  · cases b1 <;> cases b2 <;> cases b3 <;> decide
-  · cases b1 <;> cases b2 <;> cases b3 <;> decide
+  · cases b1 <;> cases b2 <;> cases b3 <;> cases b4 <;> decide
+  · cases b1 <;> cases b2 <;> cases b3 <;> cases b4 <;> decide
 
 /-- primary key 0 in region 1, key 1 in region 2 -/
 def wCAR : Txn :=
@@ -184,15 +184,15 @@ def wCAROps : List Op :=
 C18 defect), the client is told its primary committed after it was rolled back, and commits the
 secondary: key 1 is visible at the commit version, the primary never is. -/
 theorem C28_fails_asis_commit_after_rollback (c : ClientCfg) (hc : c.perc.commitNoLockRejectsRollback = false) :
-    PrimaryRolledBack wCAR (run c wCAR (Sys.init Store.empty) wCAROps).store ∧
-    get c.perc ((run c wCAR (Sys.init Store.empty) wCAROps).store 0) 12 = .notFound ∧
-    get c.perc ((run c wCAR (Sys.init Store.empty) wCAROps).store 1) 12 = .val 101 := by
-  obtain ⟨o, b1, ⟨b2, b3⟩⟩ := c
+    PrimaryRolledBack wCAR (run c wCAR (Sys.init c wCAR Store.empty) wCAROps).store ∧
+    get c.perc ((run c wCAR (Sys.init c wCAR Store.empty) wCAROps).store 0) 12 = .notFound ∧
+    get c.perc ((run c wCAR (Sys.init c wCAR Store.empty) wCAROps).store 1) 12 = .val 101 := by
+  obtain ⟨o, b1, ⟨b2, b3, b4⟩⟩ := c
   simp only at hc
   subst hc
   refine ⟨⟨⟨10, 10, .rollback⟩, ?_, rfl, rfl⟩, ?_⟩
-  · cases o <;> cases b1 <;> cases b3 <;> decide
-  · cases o <;> cases b1 <;> cases b3 <;> decide
+  · cases o <;> cases b1 <;> cases b3 <;> cases b4 <;> decide
+  · cases o <;> cases b1 <;> cases b3 <;> cases b4 <;> decide
 
 /-! ### what holds for every configuration -/
 
@@ -223,15 +223,25 @@ half of the invariant, valid on any tree. -/
 theorem C28_partial_per_key (c : ClientCfg) (_hc : True) (t : Txn) (wf : TxnWF t) (s0 : Store) (fr : Fresh t s0)
     (ops : List Op) (hd : ∀ op ∈ ops, op.Distinct t) :
     ∀ m ∈ t.muts,
-      (∀ w ∈ ((run c t (Sys.init s0) ops).store m.key).writes, w.startTs = t.start →
+      (∀ w ∈ ((run c t (Sys.init c t s0) ops).store m.key).writes, w.startTs = t.start →
           w = ⟨t.start, t.start, .rollback⟩ ∨ w = ⟨t.cv, t.start, m.kind⟩) ∧
-      ¬ (HasC t.start ((run c t (Sys.init s0) ops).store m.key) ∧
-         HasR t.start ((run c t (Sys.init s0) ops).store m.key)) ∧
-      (HasC t.start ((run c t (Sys.init s0) ops).store m.key) →
-        lockBlocks ((run c t (Sys.init s0) ops).store m.key) t.cv = false →
-        get c.perc ((run c t (Sys.init s0) ops).store m.key) t.cv = expected m) := by
-  have init : PInv t (Sys.init s0) := by
-    refine ⟨fun m hm => ⟨fr.uniq m hm, ?_, ?_, ?_, ?_⟩, by intro cv h; simp [Sys.init] at h⟩
+      ¬ (HasC t.start ((run c t (Sys.init c t s0) ops).store m.key) ∧
+         HasR t.start ((run c t (Sys.init c t s0) ops).store m.key)) ∧
+      (HasC t.start ((run c t (Sys.init c t s0) ops).store m.key) →
+        lockBlocks ((run c t (Sys.init c t s0) ops).store m.key) t.cv = false →
+        get c.perc ((run c t (Sys.init c t s0) ops).store m.key) t.cv = expected m) := by
+  have init : PInv t (Sys.init c t s0) := by
+    refine ⟨fun m hm => ⟨fr.uniq m hm, ?_, ?_, ?_, ?_⟩, by intro cv h; simp [Sys.init] at h, rfl, rfl, ?_⟩
+    rotate_left 4
+    · intro r hrm
+      simp only [Sys.init] at hrm
+      cases hnx : (program c t)[0]? with
+      | none => rw [hnx] at hrm; cases hrm
+      | some r' =>
+        rw [hnx] at hrm
+        simp only [Option.toList, List.mem_singleton] at hrm
+        subst hrm
+        exact rpcOwn_of_program (c := c) wf rfl rfl (List.mem_of_getElem? hnx)
     · intro w hw hs; exact absurd hs (fr.norec m hm w hw)
     · intro w1 h1 _ _ s1 _; exact absurd s1 (fr.norec m hm w1 h1)
     · intro l hl hts; exact absurd ⟨l, hl, hts⟩ (fr.nolock m hm)
@@ -247,14 +257,14 @@ example : ClientCfg.good.Good := by decide
 
 /-- the good client on the first witness: the primary's commit fails first, nothing is visible -/
 example :
-    let y := run ClientCfg.good wGrouped (Sys.init Store.empty) wGroupedOps
+    let y := run ClientCfg.good wGrouped (Sys.init ClientCfg.good wGrouped Store.empty) wGroupedOps
     get ClientCfg.good.perc (y.store 0) 12 = .notFound ∧ get ClientCfg.good.perc (y.store 1) 12 = .notFound ∧
       get ClientCfg.good.perc (y.store 2) 12 = .notFound := by
   decide
 
 /-- the good client, fault-free run with a lost reply and a duplicate: everything is visible -/
 example :
-    let y := run ClientCfg.good wGrouped (Sys.init Store.empty)
+    let y := run ClientCfg.good wGrouped (Sys.init ClientCfg.good wGrouped Store.empty)
       [.deliver, .notLeader, .deliver, .deliver, .redeliver 0, .deliver, .lose, .check 50, .resolve [2]]
     PrimaryCommitted wGrouped y.store ∧
     get ClientCfg.good.perc (y.store 0) 12 = .val 100 ∧ get ClientCfg.good.perc (y.store 1) 12 = .val 101 ∧
@@ -271,7 +281,7 @@ def twoClients : List Op :=
 example : ∀ op ∈ twoClients, op.Distinct wGrouped := by decide
 
 example :
-    let y := run ClientCfg.good wGrouped (Sys.init Store.empty) twoClients
+    let y := run ClientCfg.good wGrouped (Sys.init ClientCfg.good wGrouped Store.empty) twoClients
     get ClientCfg.good.perc (y.store 0) 12 = .val 100 ∧ get ClientCfg.good.perc (y.store 1) 12 = .val 101 ∧
     get ClientCfg.good.perc (y.store 2) 12 = .val 102 ∧
     get ClientCfg.good.perc (y.store 0) 20 = .val 100 ∧ get ClientCfg.good.perc (y.store 2) 20 = .val 902 := by
